@@ -160,7 +160,8 @@ inductive Term where
   | raiseMulti (es : List Exc) (me : Exc)     -- MultipleExceptions(es); `me` = the exception object itself
   | assertFail (e : Exc) (ds : List (DName × UC))          -- assertThat mismatch (details, then raise)
   | expectFailure (r : Nat) (e : Option Exc) (x : Exc)     -- expectFailure: predicate raises e (x = _ExpectedFailure) or returns (x = _UnexpectedSuccess)
-  | fixtureFail (ds : List (DName × UC)) (e : Exc) (se : Exc)  -- useFixture whose setUp raises e (se = SetupError)
+  | fixtureFail (ds : List (DName × UC)) (e : Exc) (ces : List Exc) (se : Exc)  -- useFixture whose setUp raises e; ces = what the
+      -- fixture's already-registered cleanups raise while it unwinds; se = SetupError (last constituent)
 deriving Repr
 
 mutual
@@ -302,7 +303,7 @@ def runTerm (t : Term) (s : RS) : RS × Option (List Exc × Exc) :=
       match eo with
       | some e => (reportTb s1 e, some ([x], x))
       | none => (s1, some ([x], x))
-  | .fixtureFail ds e se => ({ s with details := addUniqueAll s.details s.clock true ds }, some ([e, se], se))
+  | .fixtureFail ds e ces se => ({ s with details := addUniqueAll s.details s.clock true ds }, some (e :: ces ++ [se], se))
 
 /-- execute one stage function under `_run_user`: log it, perform its actions, then its terminal behaviour.
 `deco` = wrapped by `@expectedFailure` (only ever true for the test method). Returns the new state and
